@@ -116,6 +116,31 @@ def generate(tier, seed):
         for i in range(0, len(steps), 60):
             cases.append(case("eng", sp, adapter_M(lines), "-", steps[i:i + 60]))
             dist["enforce_cases"] += 1
+    # a matcher whose VALUE comes from a stored rule text (m = eval(p.sub_rule), alone or as the first / last operand): a stored
+    # text that does not evaluate to a boolean (a number, a string) is an evaluation error on the rule where it is reached - never
+    # "no match, go on to the next rule", never a grant
+    dist["eval_value_cases"] = 0
+    T = lambda e: Raw("{%s}" % e)
+    age, nm = Prop(V("r", "sub"), "Age"), Prop(V("r", "sub"), "Name")
+    texts = [T(age), T(nm), T(Cmp("gt", age, Lit(18))), T(Lit(True)), T(Lit(False)), T(Eq(nm, Lit("alice"))), T(Lit(7)), T(Lit("x"))]
+    subs = [{"Age": 30, "Name": "alice"}, {"Age": 10, "Name": "bob"}]
+    for ek, pf in (("AO", ["sub_rule", "obj", "act"]), ("DO", ["sub_rule", "obj", "act", "eft"]), ("AD", ["sub_rule", "obj", "act", "eft"])):
+        ms = [Eval("p", "sub_rule"),
+              And(Eq(V("r", "obj"), V("p", "obj")), Eval("p", "sub_rule")),
+              And(Eval("p", "sub_rule"), Eq(V("r", "obj"), V("p", "obj")))]
+        for mi, m in enumerate(ms):
+            sp = spec(SOA, pf, ek, m)
+            combos = list(itertools.permutations(texts, 2)) + [(t,) for t in texts]
+            if tier == "quick":
+                combos = rnd.sample(combos, 14)
+            for combo in combos:
+                rules = []
+                for j, t in enumerate(combo):
+                    rules.append([t, "data1", "read"] + ([["allow", "deny"][(j + mi) % 2]] if "eft" in pf else []))
+                lines = [["p", "p"] + r for r in rules]
+                steps = [Q_e([sv, o, "read"]) for sv in subs for o in ("data1", "data2")]
+                cases.append(case("eng", sp, adapter_M(lines), "-", steps))
+                dist["eval_value_cases"] += 1
     # malformed STORED rules (a value too many / too few) at every position among well-formed ones: a request that
     # reaches one gets an error, never a grant; plain and context-qualified
     dist["malformed_rule_cases"] = 0
